@@ -18,6 +18,9 @@ answers:
   resetbm <bid> <attr> <level> <bmhex>         the board's header is (re)written and cache.ResetBoard(bid) rebuilds its BM cache
   mread|mlist <entry|fn> <bid> <ulevel> <over18> <uid> <friend>
         a read/list whose moderator facts come from the BM cache / BM string left by the resetbm history (ptt layer)
+  hold <slot> <fn> <bid> <ulevel> <over18> <uid> <bmcache> <friend> <named>   a list op whose returned list is kept (ptt layer)
+  recheck <slot>                               what the kept list shows of its board now
+  stress <n>                                   n concurrent listings each by a plain user and by SYSOP (bbs layer); "ok"
   nlist <fn> <bid> <ulevel> <over18> <uid> <bmcache> <friend> <idhex> <bmhex>: a list op whose named-moderator fact is
         is_uBM of the raw bytes (≤13 / ≤39)
 The first command-line argument selects the layer (ptt | bbs).
@@ -165,6 +168,7 @@ def step (bbs : Bool) (st : St) (ws : List String) : St × String :=
 /-! ### accounts and moderator lists (ops users / sread / slist / resetbm / mread / mlist) -/
 
 structure Full where
+  held : List (Nat × String) := []      -- slot ↦ what the held listing showed of its board when it was made
   core : St := []
   tbl : Option UserTable := none
   bms : List (Int × List Nat) := []     -- bid ↦ moderator string of the last resetbm (while still in force)
@@ -245,6 +249,37 @@ def stepFull (bbs : Bool) (f : Full) (ws : List String) : Full × String :=
               ({ f with core := core' }, o)
            | _, _, _ => (f, "bad-op"))
        | _, _, _, _, _, _ => (f, "bad-op"))
+  | ["hold", slot, fn, bid, ulevel, over18, uid, bmc, friend, named] =>
+      -- a list op whose returned list the caller keeps (ptt layer)
+      (match parseU32 slot with
+       | some k =>
+          if bbs || k > 7 || !stepListings.contains fn then (f, "bad-op") else
+          let (core', o) := step bbs f.core ["list", fn, bid, ulevel, over18, uid, bmc, friend, named]
+          if o = "bad-op" then (f, o) else
+          let f' : Full := { f with core := core' }
+          let f' := match parseI32 bid with | some b => dropMod f' b | none => f'
+          let shape := (o.splitOn " ").headD ""
+          ({ f' with held := (k, shape) :: f'.held.filter (fun e => e.1 != k) }, o)
+       | none => (f, "bad-op"))
+  | ["recheck", slot] =>
+      -- what the held list shows NOW: a list made by its own call is not touched by later listings
+      (match parseU32 slot with
+       | some k =>
+          (match f.held.find? (fun e => e.1 == k) with
+           | some e =>
+              if bbs then (f, "bad-op")
+              else if Gen.ReadEntryPoints.showBoardListFresh then (f, e.2)
+              else (f, "unmodelled:showBoardList_hands_out_a_shared_list")
+           | none => (f, "bad-op"))
+       | none => (f, "bad-op"))
+  | ["stress", n] =>
+      -- concurrent listings of a plain user and the site administrator over a hidden board (bbs layer)
+      (match parseU32 n with
+       | some n =>
+          if !bbs || n = 0 || n > 5000 || (getBoard f.core 2).isNone then (f, "bad-op")
+          else if Gen.ReadEntryPoints.showBoardListFresh then (f, "ok")
+          else (f, "unmodelled:showBoardList_hands_out_a_shared_list")
+       | none => (f, "bad-op"))
   | _ =>
       -- the ops of the decision table; they rewrite the moderator cache and string of the board they address
       let (core', o) := step bbs f.core ws
